@@ -383,7 +383,21 @@ theorem C15_model_meets_spec (ls : List LState)
       · simp only [hb, if_false]
         cases f with
         | fail => rfl
-        | body data c => simp [obsOf]
+        | body data c =>
+          simp [obsOf]
+          -- the body failed for a reason the property does not list: some line is too long
+          intro hshort
+          exfalso
+          have hff : fetchFails (.body data c) = true := by
+            rcases hf with hf | hf
+            · rw [ha] at hf; cases hf
+            · exact hf
+          cases c with
+          | false => simp [fetchBad] at hb
+          | true =>
+            simp only [fetchBad, Bool.not_true, Bool.false_or, Bool.or_eq_true, not_or, Bool.not_eq_true] at hb
+            have hacc := (C15_acceptance_characterised data).mpr ⟨hb.1, hb.2, hshort⟩
+            simp [fetchFails, hacc] at hff
   · -- a successful download of a complete body
     simp only [not_or, Bool.not_eq_false, Bool.not_eq_true] at hf
     obtain ⟨hatt, hnf⟩ := hf
@@ -414,6 +428,8 @@ theorem C15_model_meets_spec (ls : List LState)
             simp [updateIntl, hsame]
           rw [refreshOne_of_none hu] at hflt
           simp [obsOf, hu, hflt]
+          intro _
+          rw [← hcrc]; exact hsame
         · have hu : updateIntl l.flt.checksum (.body data true) =
               some ((parse data true).st.count, (parse data true).st.crc, (parse data true).out) := by
             simp [updateIntl, hok, hsame]
@@ -594,6 +610,21 @@ theorem C15_mixed_history_invariant (flt : Flt) (ops : List LOp) (h : WeakConsis
           cases hc : rq.changed with
           | false => simpa using same true
           | true => simpa using zero true
+
+/-- **The stored file is always ONE body.**  After any history of refreshes and
+set_url requests on a list that started without a file: there is no file, or
+the file is the normal form of exactly one complete response body that the
+parser accepted — never a mixture of two answers, never a prefix.  (Follows
+from `C15_mixed_history_invariant` and `C15_parser_equals_normal_form`; the
+code makes one request per list and update and writes each pending file from
+one response only.) -/
+theorem C15_stored_is_one_body (en : Bool) (ops : List LOp) :
+    (ops.foldl applyOp ⟨en, 0, 0, none⟩).file = none ∨
+    ∃ data, (parse data true).err = none ∧
+      (ops.foldl applyOp ⟨en, 0, 0, none⟩).file = some (normalForm data) := by
+  rcases C15_mixed_history_invariant ⟨en, 0, 0, none⟩ ops (Or.inl ⟨rfl, rfl, rfl⟩) with ⟨h, _, _⟩ | ⟨data, he, hf, _, _⟩
+  · exact Or.inl h
+  · exact Or.inr ⟨data, he, by rw [hf, (parse_normal data he).1]⟩
 
 /-! ### Non-vacuity -/
 
